@@ -49,9 +49,13 @@ pub struct Packet {
     pub len: usize,
     pub nfd: usize,
     pub inf0: usize, // first of `nfd` consecutive entries of the in-flight table
-    pub data: [u8; PKMAX],
+    pub hlen: usize, // 0, or 8: the packet starts with a header word kept here, not in PKDATA
+    pub hdr: u64,
 }
-const PK0: Packet = Packet { len: 0, nfd: 0, inf0: 0, data: [0; PKMAX] };
+const PK0: Packet = Packet { len: 0, nfd: 0, inf0: 0, hlen: 0, hdr: 0 };
+/// Packet payloads live in their own object: they are written through raw pointers with symbolic
+/// contents, and CBMC then stops constant-propagating the *whole* object they are part of.
+pub static mut PKDATA: [[u8; PKMAX]; NPK] = [[0; PKMAX]; NPK];
 
 pub struct Kernel {
     pub nextfd: usize,
@@ -260,6 +264,9 @@ unsafe fn settle_pass() {
     }
 }
 unsafe fn settle() {
+    if K.ninf == 0 {
+        return; // nothing was ever in transit
+    }
     settle_pass();
     settle_pass();
     settle_pass();
@@ -390,11 +397,15 @@ unsafe fn enqueue(
     K.nextpk += 1;
     K.pk[pk].len = total;
     K.pk[pk].nfd = nfds;
-    if hlen > 0 {
-        ptr::copy_nonoverlapping(hdr, K.pk[pk].data.as_mut_ptr(), hlen);
+    // The header word is kept beside the payload bytes so that it stays a constant for the
+    // symbolic executor when the sender passed a constant (payload bytes are solver variables).
+    assert!(hlen == 0 || hlen == 8);
+    K.pk[pk].hlen = hlen;
+    if hlen == 8 {
+        K.pk[pk].hdr = ptr::read_unaligned(hdr as *const u64);
     }
     if blen > 0 {
-        ptr::copy_nonoverlapping(buf, K.pk[pk].data.as_mut_ptr().add(hlen), blen);
+        ptr::copy_nonoverlapping(buf, PKDATA[pk].as_mut_ptr(), blen);
     }
     // the real kernel validates every descriptor before queueing anything
     let mut i = 0;
@@ -486,6 +497,37 @@ unsafe fn wait_packet(fd: c_int) -> (isize, ssize_t) {
     K.qlen[e] -= 1;
     (pk as isize, 0)
 }
+/// copy `n` bytes of packet `pk`'s content (header word, then payload) from logical offset `off`
+unsafe fn copy_out(pk: usize, off: usize, dst: *mut u8, n: usize) {
+    if n == 0 {
+        return;
+    }
+    let hlen = K.pk[pk].hlen;
+    if off == 0 && hlen == 8 && n >= 8 {
+        // the common case: the header word goes out as one aligned-or-not word
+        ptr::write_unaligned(dst as *mut u64, K.pk[pk].hdr);
+        if n > 8 {
+            ptr::copy_nonoverlapping(PKDATA[pk].as_ptr(), dst.add(8), n - 8);
+        }
+        return;
+    }
+    if off >= hlen {
+        ptr::copy_nonoverlapping(PKDATA[pk].as_ptr().add(off - hlen), dst, n);
+        return;
+    }
+    // a read that splits the header word: byte by byte (not used by the unmodified crate)
+    let hb = K.pk[pk].hdr.to_le_bytes();
+    let mut i = 0;
+    while i < 8 {
+        if off + i < hlen && i < n {
+            *dst.add(i) = hb[off + i];
+        }
+        i += 1;
+    }
+    if off + n > hlen {
+        ptr::copy_nonoverlapping(PKDATA[pk].as_ptr(), dst.add(hlen - off), off + n - hlen);
+    }
+}
 #[no_mangle]
 pub unsafe extern "C" fn recvmsg(fd: c_int, msg: *mut msghdr, flags: c_int) -> ssize_t {
     let (pk, r) = wait_packet(fd);
@@ -498,16 +540,11 @@ pub unsafe extern "C" fn recvmsg(fd: c_int, msg: *mut msghdr, flags: c_int) -> s
     let iv0 = *m.msg_iov;
     let iv1 = *m.msg_iov.add(1);
     let len = K.pk[pk].len;
-    let src = K.pk[pk].data.as_ptr();
     let n0 = if len < iv0.iov_len { len } else { iv0.iov_len };
-    if n0 > 0 {
-        ptr::copy_nonoverlapping(src, iv0.iov_base as *mut u8, n0);
-    }
+    copy_out(pk, 0, iv0.iov_base as *mut u8, n0);
     let rest = len - n0;
     let n1 = if rest < iv1.iov_len { rest } else { iv1.iov_len };
-    if n1 > 0 {
-        ptr::copy_nonoverlapping(src.add(n0), iv1.iov_base as *mut u8, n1);
-    }
+    copy_out(pk, n0, iv1.iov_base as *mut u8, n1);
     m.msg_flags = 0;
     if n0 + n1 < len {
         K.trunc_data = true;
@@ -563,9 +600,7 @@ pub unsafe extern "C" fn recv(fd: c_int, buf: *mut c_void, len: size_t, _flags: 
     if n < plen {
         K.trunc_data = true;
     }
-    if n > 0 {
-        ptr::copy_nonoverlapping(K.pk[pk].data.as_ptr(), buf as *mut u8, n);
-    }
+    copy_out(pk, 0, buf as *mut u8, n);
     // descriptors attached to a packet read with plain recv() are discarded
     let mut i = 0;
     while i < PFD {
@@ -811,6 +846,9 @@ unsafe fn readable(o: i16) -> bool {
 }
 /// a packet was queued for / the peer of endpoint `o` died: edge → pending
 unsafe fn ep_notify(o: i16) {
+    if EP.n == 0 {
+        return; // no receiver set in this harness
+    }
     let mut i = 0;
     while i < NEP {
         if i < EP.n && EP.reg_obj[i] == o {
